@@ -108,7 +108,7 @@ JudgeRun(ps, cs, inp, dev) ==
             V(FALSE, "temp-defined", "temp-defined:read-of-unassigned-temporary:at=" \o at \o
                      (IF \E q \in 1..Len(dp.code) : dp.code[q].op = "JF" /\ dp.code[q].sk \in {"IF-ELSE", "IF-ELSEIF-ELSE", "IF-ELSEIF-noELSE"}
                       THEN ":src=IF-with-ELSE" ELSE ""), sb.rdundef \o " shapes" \o shapes)
-       ELSE IF cs.init THEN V(FALSE, "initial", "initial:read-of-unassigned-variable:at=" \o at, sb.rdundef \o " shapes" \o shapes)
+       ELSE IF cs.init THEN VS(FALSE, "initial", "initial:read-of-unassigned-variable:at=" \o at, sb.rdundef \o " shapes" \o shapes, bp.code[sb.epc].op)
        ELSE V(TRUE, "unjudged", "tgt-reads-unassigned-without-init", sb.rdundef)
   ELSE IF sb.status = "error" THEN
        VS(FALSE, "target-error", "target-error:" \o sb.why \o ":at=" \o bp.code[sb.epc].op \o
@@ -134,6 +134,21 @@ HasConv(tr) == CASE tr[1] = "call" -> tr[2] \in Convertible \/ \E k \in 1..Len(t
                  [] tr[1] = "idx" -> \E k \in 1..Len(tr[3]) : HasConv(tr[3][k])
                  [] tr[1] = "un" -> HasConv(tr[3]) [] tr[1] = "par" -> HasConv(tr[2])
                  [] tr[1] = "bin" -> HasConv(tr[3]) \/ HasConv(tr[4]) [] OTHER -> FALSE
+\* scalar variables of a tree / of an instruction (source side)
+RECURSIVE ScalarVars(_)
+ScalarVarsSeq(ts) == UNION { ScalarVars(ts[k]) : k \in 1..Len(ts) }
+ScalarVars(tr) == CASE tr[1] = "var" -> {tr[2]} [] tr[1] = "idx" -> ScalarVarsSeq(tr[3]) [] tr[1] = "call" -> ScalarVarsSeq(tr[3])
+                    [] tr[1] = "un" -> ScalarVars(tr[3]) [] tr[1] = "par" -> ScalarVars(tr[2])
+                    [] tr[1] = "bin" -> ScalarVars(tr[3]) \cup ScalarVars(tr[4]) [] OTHER -> {}
+InsScalarVars(ins) == IF ins.op \in {"DIM", "PARAM", "TYPE", "DATA", "REM", "PROC", "BASE"} THEN {}
+                      ELSE ScalarVars(ins.e) \cup ScalarVars(ins.e2) \cup ScalarVars(ins.e3) \cup (IF ins.op = "ONGO" THEN {} ELSE ScalarVarsSeq(ins.a))
+                           \cup (IF ins.op \in {"FOR", "NEXT"} THEN {ins.x} ELSE {})
+\* some scalar variable occurs inside the subscripts of READ/INPUT targets and nowhere outside READ/INPUT statements
+VarOnlyInReadInputTargets(code) ==
+  LET inside == UNION { UNION { ScalarVarsSeq(code[q].a[k][3]) : k \in { j \in 1..Len(code[q].a) : code[q].a[j][1] = "idx" } }
+                        : q \in { j \in 1..Len(code) : code[j].op \in {"READ", "INPUT"} } }
+      outside == UNION { InsScalarVars(code[q]) : q \in { j \in 1..Len(code) : code[j].op \notin {"READ", "INPUT"} } } IN
+  inside \ outside # {}
 \* READ / INPUT whose target has a convertible function in a subscript
 ConvInReadInputSubscript(code) ==
   \E q \in 1..Len(code) : code[q].op \in {"READ", "INPUT"} /\
@@ -150,6 +165,10 @@ Situate(cs, ps, vd) ==
   IF vd.ok THEN vd
   ELSE IF HPrintNumeric(ps.dp.code) /\ vd.key \in {"target-error:type:assignment:at=RUN-ECB_STR", "operand:ECB_HPRINT:TXT"}
        THEN [vd EXCEPT !.key = @ \o ":src=HPRINT-of-a-number"]
+  \* a variable that occurs only inside the subscripts of READ/INPUT targets is not pre-initialised: array targets of READ
+  \* and INPUT are not visited (the root cause of the undeclared-array findings)
+  ELSE IF vd.clause = "initial" /\ vd.ssk \in {"READ", "INPUT"} /\ VarOnlyInReadInputTargets(ps.dp.code)
+       THEN [vd EXCEPT !.key = "initial:read-of-unassigned-variable:src=variable-only-inside-READ-INPUT-target-subscripts"]
   ELSE IF ~ConvInReadInputSubscript(ps.dp.code) THEN vd
   ELSE IF \/ (vd.clause = "parses" /\ ps.tln >= 1 /\ ps.tln <= Len(cs.out) /\ LineHas(cs.out[ps.tln], {"READ", "INPUT"}))
           \/ (vd.clause = "call-seq" /\ vd.ssk = "lost")
